@@ -28,6 +28,7 @@
 import ASV.Proofs.SerialRecord
 import ASV.Proofs.SerialPre
 import ASV.Proofs.SerialQual
+import ASV.Proofs.SerialDom
 namespace ASV.C10
 open ASV ASV.Serial
 
@@ -346,5 +347,34 @@ theorem secmet_qualifier_roundtrip_partial (ds : List SMDom) (hn : (ds.map (·.n
   simp
 
 example : (⟨"PKS_KS", "1.5e-20", "12.5", "25", "rule-based-clusters"⟩ : SMDom).textSafe = true := by decide +kernel
+
+/-! ### domains and motifs (`AntismashFeature` → `Domain` → `AntismashDomain` / `CDSMotif`) -/
+
+/-- an `aSDomain` (no registered subtype) or `CDS_motif` feature made by antiSMASH: the written feature is
+    read back with the same tool, locus tag, protein location, domain name, active-site hits, domain id,
+    database, detection, label, e-value and score texts and translation; the base part (location, notes,
+    free qualifiers) has the same view; the re-read object satisfies the hypotheses again and writes the
+    very same Biopython feature.  `Dom.WF`: what the constructors and setters guarantee, no `codon_start`,
+    and free qualifiers that use none of the thirteen keys the classes write. -/
+theorem bio_roundtrip_domain (t : Bool) (kind : DomKind) (d : Dom) (h : d.WF kind) (b : Bio) (hb : d.toBio = .ok b) :
+    ∃ d', Dom.fromBio kind b = .ok d' ∧ d' = { d with feat := d'.feat } ∧ d'.feat.view t = d.feat.view t ∧
+      d'.feat.loc = d.feat.loc ∧ d'.WF kind ∧ d'.toBio = .ok b :=
+  dom_roundtrip t kind d h b hb
+
+/-- a domain with every optional attribute set, notes and a free qualifier -/
+def sampleDomain : Dom :=
+  { feat := ⟨.simple ⟨30, 90, .rev⟩, "aSDomain", ["a note"], [("custom", ["x", "y"])], true, none⟩,
+    tool := "nrps_pks_domains", locusTag := "ctg1_5", pStart := 10, pEnd := 30, domain := some "PKS_KS",
+    asf := ["hit 1", "hit 2"], domainId := some "nrpspksdomains_ctg1_5_PKS_KS.1", database := some "nrpspksdomains.hmm",
+    detection := some "hmmscan", label := some "ctg1_5_KS1", evalue := some "1.50E-20", score := some "12.5",
+    translation := "MAGIC" }
+
+/-- non-vacuity: the hypotheses hold for it (`domWFb`, the Boolean form the driver reports as scope, implies
+    `Dom.WF`), it is written, and it comes back attribute by attribute -/
+theorem sampleDomain_in_scope : sampleDomain.WF .asDomain := Dom.WF_of_b _ _ (by decide +kernel)
+example : domWFb .asDomain sampleDomain = true ∧
+    (match sampleDomain.toBio with
+     | .ok b => (match Dom.fromBio .asDomain b with | .ok d' => d' == { sampleDomain with feat := d'.feat } | _ => false)
+     | _ => false) = true := by decide +kernel
 
 end ASV.C10
